@@ -1,5 +1,7 @@
 import logging
 
+import numpy as np
+
 from . import CoordinateConversion, Datum, core, mixin
 from .data import Data
 from .decorators import _display_or_return, _manage_log_level_via_verbosity
@@ -251,6 +253,11 @@ class CoordinateReference(
                     header=header,
                 )
             else:
+                if isinstance(value, (np.generic, np.ndarray)):
+                    # The repr of a numpy object can not be executed
+                    # on its own
+                    value = value.tolist()
+
                 value = repr(value)
 
             out.append(f"{name}.datum.set_parameter({term!r}, {value})")
@@ -265,6 +272,11 @@ class CoordinateReference(
                     header=header,
                 )
             else:
+                if isinstance(value, (np.generic, np.ndarray)):
+                    # The repr of a numpy object can not be executed
+                    # on its own
+                    value = value.tolist()
+
                 value = repr(value)
 
             out.append(
